@@ -384,4 +384,5 @@ impl fmt::Debug for U256 {
 #[derive(Debug)]
 pub enum Error {
     InvalidLength { expected: usize, actual: usize },
+    NotInField,
 }
